@@ -76,7 +76,8 @@ structure GeneCtx where
   chr : Id
   /-- `get_gene_regions()` of a non-empty gene_info, `{}` otherwise -/
   regions : List (Id × Iv) := []
-  /-- `all_isoforms_exons` etc., in dict order -/
+  /-- the entries of `all_isoforms_exons` etc., in dict order: the transcript records that have AT LEAST ONE exon record
+      (`set_introns_and_exons` skips the others; `Model/GtfRef.lean: ChrAnn.ctx` derives this list from all records) -/
   isoforms : List RefTx := []
 deriving Repr
 
